@@ -191,6 +191,13 @@ func init() {
 		return coin
 	}
 	reg(pSdk+"NewCoin", newCoin)
+	reg(pSdk+"ValidateDenom", func(c *LibCtx, a []*Val) *Val {
+		err := freshErr(c, "denomErr")
+		c.st.Assume(Eq(Eq(err.Tag, Num(0)), validDenom(a[0].T)))
+		// a valid denom is never empty
+		c.st.Assume(Implies(validDenom(a[0].T), Gt(StrLen(a[0].T), Num(0))))
+		return err
+	})
 	reg(pSdk+"NewCoins", func(c *LibCtx, a []*Val) *Val {
 		// variadic: a[0] is the []Coin slice built by the caller
 		s := a[0]
@@ -427,6 +434,13 @@ func init() {
 		balA := Select(ghostT(c.st, "bal"), a[2].T)
 		c.st.Assume(Forall([]*Term{d}, And(Ge(Select(sp, d), Num(0)), Le(Select(sp, d), Select(balA, d))), []*Term{Select(sp, d)}))
 		return coinsVal(sp, c.resType(0))
+	})
+	reg(B+"LockedCoins", func(c *LibCtx, a []*Val) *Val {
+		lk := Const(freshName("locked"), sortStrArrInt)
+		d := Bound("d", SStr)
+		balA := Select(ghostT(c.st, "bal"), a[2].T)
+		c.st.Assume(Forall([]*Term{d}, And(Ge(Select(lk, d), Num(0)), Le(Select(lk, d), Select(balA, d))), []*Term{Select(lk, d)}))
+		return coinsVal(lk, c.resType(0))
 	})
 	reg(B+"BlockedAddr", func(c *LibCtx, a []*Val) *Val { return boolVal(Select(ghostT(c.st, "blocked"), a[1].T)) })
 	reg(B+"IsSendEnabledCoins", func(c *LibCtx, a []*Val) *Val { return freshErr(c, "sendEnabledErr") })
